@@ -150,9 +150,10 @@ def judge(case):
     # string) - it must agree with the stand-alone programs at every step
     live = None
     live_idx = {}
+    # (in every third family the revisions come under changing experiment names: checkout_v1 -> checkout_v2 ...)
+    renamed = sum(len(w) for ws_ in fam for w in ws_) % 3 == 0
     for vi, ws in enumerate(fam):
-        # (a new revision often comes under a new experiment name: checkout_v1 -> checkout_v2)
-        text = M.render(M.program("live" if vi % 2 == 0 else "live_v%d" % vi, M.ret([(M.lit_str("https://cdn.example/g%d.js" % gi), w) for gi, w in enumerate(ws)]),
+        text = M.render(M.program("live_v%d" % vi if renamed and vi % 2 else "live", M.ret([(M.lit_str("https://cdn.example/g%d.js" % gi), w) for gi, w in enumerate(ws)]),
                                   salt=salt, splitters=["uid"]))
         try:
             if live is None:
